@@ -294,7 +294,7 @@ def Delivered (s : St) : Prop :=
   (∃ (i : Nat) (c : Call) (h : Bool), s.cur = some i ∧ s.calls[i]? = some c ∧ c.nonce = s.nonce ∧
     c.res = some (s.value, h, s.verr)) ∧
   s.target = (if s.tgt ∧ s.verr = 0 then s.value else 0) ∧
-  s.targetErr = (if s.tgt then s.verr else 0) ∧
+  s.targetErr = (if s.tgtE then s.verr else 0) ∧
   ∀ (a : Nat) (k : CbKind) (pc : Pc) (f sf : Bool) (t : Option Nat),
     s.th[a]? = some (.ref k pc true f sf t) → k ≠ .nil → t = s.cur
 
@@ -431,7 +431,7 @@ theorem quiescent_no_pending_api (s : St) (hq : quiescent s = true) : pendingIds
 /-! ## the hypotheses are satisfiable, the model does something -/
 
 /-- resolve, deliver, drop the last reference: the release function runs once, after the target was emptied -/
-def exRun1 : List Ev := [.cfg false 1 true, .invAddRef 0 .rcd, .addRefCS 0, .retAddRef 0, .enter 0 0,
+def exRun1 : List Ev := [.cfg false 1 1, .invAddRef 0 .rcd, .addRefCS 0, .retAddRef 0, .enter 0 0,
   .leave 0 0 1 true 0, .store 0, .cb (.refcb 0 true true 1 0), .done 0,
   .invRelease 1 0, .relSwap 1, .relCS 1, .cb (.rel 0 0 0), .retRelease 1, .probe 0 0, .quiesce []]
 
@@ -441,7 +441,7 @@ example : relCalls exRun1 0 = 1 := by decide
 /-- two restarts inside one resolver's return latency (released(), then SetContext): call 1 gives up
 and drains behind call 0; call 0's late result is stale and released in its own final section; call 2
 enters only after both are done -/
-def exRun2 : List Ev := [.cfg false 1 true, .invAddRef 0 .rcd, .addRefCS 0, .retAddRef 0, .enter 0 0,
+def exRun2 : List Ev := [.cfg false 1 1, .invAddRef 0 .rcd, .addRefCS 0, .retAddRef 0, .enter 0 0,
   .envReleased 0, .relRun 0, .invSetCtx 1 2 false, .setCtxCS 1, .retSetCtx 1 (some true),
   .giveUp 1, .leave 0 0 1 true 0, .store 0, .cb (.rel 0 0 0), .done 0, .drained 1, .done 1,
   .enter 2 1, .leave 2 1 2 true 0, .store 2, .cb (.refcb 0 true true 2 0), .done 2, .probe 2 0, .quiesce []]
@@ -450,7 +450,7 @@ example : (model.run model.init exRun2).isSome = true := by decide
 example : relCalls exRun2 0 = 1 ∧ relCalls exRun2 2 = 0 := by decide
 
 /-- keep-unreferenced: the value survives the last Release; AddRef(nil) on the resolved container -/
-def exRun3 : List Ev := [.cfg true 1 true, .invAddRef 0 .quiet, .addRefCS 0, .retAddRef 0, .enter 0 0,
+def exRun3 : List Ev := [.cfg true 1 1, .invAddRef 0 .quiet, .addRefCS 0, .retAddRef 0, .enter 0 0,
   .leave 0 0 1 true 0, .store 0, .cb (.refcb 0 false true 1 0), .done 0,
   .invRelease 1 0, .relSwap 1, .relCS 1, .retRelease 1, .probe 1 0, .quiesce [],
   .invAddRef 2 .nil, .addRefCS 2, .retAddRef 2, .probe 1 0, .quiesce []]
